@@ -298,7 +298,9 @@ func runSignScenario(w *World, tier string, prop string) (bool, interface{}) {
 	descs := []string{}
 	// release[batchID] : slow signers may answer that batch now
 	release := map[string]bool{}
-	never := map[string]map[int]bool{} // C01: signers that never answer the batch
+	failBatch := map[string]map[int]bool{} // batch id -> operators whose machines report a failure for it
+	staleFail := map[string]bool{}         // old batches whose late answers are failure reports
+	never := map[string]map[int]bool{}     // C01: signers that never answer the batch
 	slowOf := map[string]map[int]bool{}
 	for i, op := range c.Ops {
 		i := i
@@ -336,44 +338,43 @@ func runSignScenario(w *World, tier string, prop string) (bool, interface{}) {
 			w.Stats.Fault("faulty-partial-signatures")
 		}
 		for i, op := range c.Ops {
-			op.Tamper = nil
-			if i == faulty {
-				op.Tamper = func(o *types.Operation, result []byte) []byte {
-					if !o.IsSigningState() {
-						return result
-					}
+			i := i
+			op.Tamper = func(o *types.Operation, result []byte) []byte {
+				if !o.IsSigningState() {
+					return result
+				}
+				if i == faulty {
 					return corruptPartialSigns(w, result)
 				}
+				// the machine reports a failure for this very operation: because its batch is
+				// being cancelled by failures, or because this is a slow participant's late
+				// answer to an OLD batch and the machine can no longer sign it
+				if bid := BatchOfOp(o); failBatch[bid][i] || staleFail[bid] {
+					if dd := w.Nodes[i].Dump(round); dd != nil {
+						if id, ok := dd.Payload.IDs[w.Nodes[i].Name]; ok {
+							if staleFail[bid] {
+								w.Stats.Fault("late-answer-to-an-old-batch-is-a-failure-report")
+							}
+							return SignerErrorResult(o, id, "event_signing_partial_sign_error_received", "machine could not sign")
+						}
+					}
+				}
+				return result
 			}
 		}
 		// C07 "do not prevent the signing of later batches": this batch is cancelled
 		// by the failure reports of n-t+1 machines (everybody answers promptly, nobody
 		// reaches t); the batches after it have to be signed as usual
+		var cancelFailing map[int]bool
 		cancelBatch := prop == "C07" && b+1 < nb && w.Tape.Bool(1, 5, "batchCancelledByFailures")
 		if cancelBatch {
 			for _, i := range perm {
 				fast[i] = true
 			}
 			k = n
-			failing := map[int]bool{}
+			cancelFailing = map[int]bool{}
 			for _, i := range perm[:n-t+1] {
-				failing[i] = true
-			}
-			for i, op := range c.Ops {
-				i := i
-				if failing[i] {
-					op.Tamper = func(o *types.Operation, result []byte) []byte {
-						if !o.IsSigningState() {
-							return result
-						}
-						if dd := w.Nodes[i].Dump(round); dd != nil {
-							if id, ok := dd.Payload.IDs[w.Nodes[i].Name]; ok {
-								return SignerErrorResult(o, id, "event_signing_partial_sign_error_received", "machine could not sign")
-							}
-						}
-						return result
-					}
-				}
+				cancelFailing[i] = true
 			}
 		}
 		before := len(c.Tr.Order)
@@ -403,6 +404,15 @@ func runSignScenario(w *World, tier string, prop string) (bool, interface{}) {
 			continue
 		}
 		bi := c.Tr.LastBatch()
+		if len(bi.Msgs) == 0 {
+			// a proposal that expands to nothing (empty baked range) is refused by every
+			// node: no batch is running, so there is nothing a second proposal could race
+			delete(c.L.PausedPoll, racer)
+			racer, stalled, cancelBatch = -1, -1, false
+			descs = append(descs, d+" (expands to no message)")
+			c.L.RunUntil(func() bool { return false }, 3*n)
+			continue
+		}
 		if racer >= 0 {
 			if w.Nodes[racer].RoundState(round) == StIdle {
 				rp := c.ProposeFiles(racer, round, map[string][]byte{fmt.Sprintf("racing proposal %d", b): genPayload(w, "racePl")})
@@ -425,6 +435,9 @@ func runSignScenario(w *World, tier string, prop string) (bool, interface{}) {
 			relMode = w.Tape.Choose(3, "releaseMode")
 			for _, old := range pendingRelease {
 				release[old] = true // stale answers may now race with this batch
+				if w.Tape.Bool(1, 2, "staleAnswersAreFailures") {
+					staleFail[old] = true
+				}
 				w.Stats.Probe("stale-answers-released-into-later-batch")
 			}
 			pendingRelease = nil
@@ -433,6 +446,7 @@ func runSignScenario(w *World, tier string, prop string) (bool, interface{}) {
 		}
 		descs = append(descs, fmt.Sprintf("%s signers=%d rel=%d", d, k, relMode))
 		if cancelBatch {
+			failBatch[bi.BatchID] = cancelFailing
 			gone := c.L.RunUntil(func() bool {
 				for _, i := range members {
 					st := w.Nodes[i].RoundState(round)
@@ -442,9 +456,6 @@ func runSignScenario(w *World, tier string, prop string) (bool, interface{}) {
 				}
 				return len(bi.Answered) >= t-1
 			}, stepCap)
-			for _, op := range c.Ops {
-				op.Tamper = nil
-			}
 			if gone {
 				w.Stats.Fault("batch-cancelled-by-error-reports")
 			}
@@ -512,7 +523,7 @@ func runSignScenario(w *World, tier string, prop string) (bool, interface{}) {
 			d += "+proposer-stalled"
 			delete(c.L.PausedPoll, stalled) // it resumes and has to catch up as well
 		}
-		if !ok && len(bi.Msgs) > 0 && prop == "C07" && !w.Failed() {
+		if !ok && len(bi.Msgs) > 0 && len(bi.Answered) >= t && prop == "C07" && !w.Failed() {
 			w.Fail(prop, "batch-not-reconstructed", fmt.Sprintf("batch #%d (%s), correctly answered by %d >= t=%d participants, is not stored by every node / round not idle (states %v)", b, d, len(bi.Answered), t, states(c, round)))
 		}
 		if prop == "C07" && w.Tape.Bool(1, 3, "clockJump") {
